@@ -613,7 +613,8 @@ func goJSONMalformed(a []string) (res string) {
 }
 
 // goBodyRoundTrip: abi.InMsgBody / abi.ExtOutMsgBody envelopes.
-//   inbody empty | inbody unknown <op|-> <table> | inbody known <name>
+//
+//	inbody empty | inbody unknown <op|-> <table> | inbody known <name>
 func goBodyRoundTrip(a []string) string {
 	in := a[0] == "inbody"
 	var op *uint32
@@ -937,10 +938,10 @@ func (c *c20Gen) mutate(doc []byte, ascii bool) [][]byte {
 		k := 1 + g.Rng.Intn(len(inner)-1)
 		add(wrap(cat(inner[:k], []byte("_"), inner[k:])))
 		add(wrap(cat(inner[:k], []byte(" "), inner[k:])))
-		add(wrap(cat(inner[:k], inner[k+1:])))       // delete one
-		add(wrap(cat(inner[:k], inner[k-1:])))       // duplicate one
+		add(wrap(cat(inner[:k], inner[k+1:])))            // delete one
+		add(wrap(cat(inner[:k], inner[k-1:])))            // duplicate one
 		add(wrap(cat(inner[:k], []byte("g"), inner[k:]))) // non-hex
-		add(wrap(inner[:k]))                           // truncate
+		add(wrap(inner[:k]))                              // truncate
 		add(wrap(inner[k:]))
 		add(doc[:1+g.Rng.Intn(len(doc)-1)]) // truncated document
 	}
@@ -1123,6 +1124,25 @@ func genC20(g *h.G) {
 			emit([]string{"scoins"}, []string{fmt.Sprint(v)}, full)
 			g.Count("magic")
 			emit([]string{"magic"}, []string{fmt.Sprint(uint32(g.U64()))}, full)
+		}
+	}
+	// address boundaries on EVERY run: standard addresses at the edges of the 8-bit workchain, variable addresses just
+	// outside it and at the edges of int32, each with and without anycast, 256-bit and other lengths
+	for _, any := range []string{"-", "1,1", "30,1073741823"} {
+		for _, wc := range []int{-128, -127, -1, 0, 1, 126, 127} {
+			for k := 0; k < 2; k++ {
+				g.Count("addr_std_boundary")
+				emit([]string{"addr"}, []string{fmt.Sprintf("std/%s/%d/%x", any, wc, g.RandData(256))}, asciiOnly)
+			}
+			// variable addresses inside the 8-bit range that are NOT look-alikes (length ≠ 256)
+			g.Count("addr_var_boundary")
+			emit([]string{"addr"}, []string{fmt.Sprintf("var/%s/%d/%s", any, wc, c.bin(g.Pick(0, 1, 255, 257, 260)))}, asciiOnly)
+		}
+		for _, wc := range []int64{-129, 128, -2147483648, -2147483647, 2147483646, 2147483647, -32768, 32767, 255, 256} {
+			for _, bl := range []int{256, 255, 8} {
+				g.Count("addr_var_boundary")
+				emit([]string{"addr"}, []string{fmt.Sprintf("var/%s/%d/%s", any, wc, c.bin(bl))}, asciiOnly)
+			}
 		}
 	}
 	// bit strings, addresses, optionals
